@@ -4,6 +4,7 @@ CONSTANTS
   MaxNodes = 4
   MaxDepth = 3
   EmitAll = TRUE
+  WideLeaves = FALSE
 INVARIANTS Inv Precedence Emit
 PROPERTIES GlobalWrittenOnlyByAssign
 CHECK_DEADLOCK FALSE
